@@ -61,22 +61,43 @@ func genShape(minRank, maxRank, maxExt, maxElems int) *rapid.Generator[[]int] {
 	})
 }
 
-// genBroadcastPair constructs (a, b, result) with a and b broadcast-compatible: draw the result
-// shape, then per operand a rank <= result rank and per axis keep / make 1.
+// genBroadcastPair constructs (a, b, result) with a and b broadcast-compatible: per axis draw the
+// extent and which operand (none, a, b, both) holds a 1 there, then drop leading axes of either
+// operand. Both-sided stretching, scalars and rank differences arise by construction.
 func genBroadcastPair(maxRank, maxExt, maxElems int) *rapid.Generator[[3][]int] {
 	return rapid.Custom(func(t *rapid.T) [3][]int {
-		res := genShape(0, maxRank, maxExt, maxElems).Draw(t, "res")
-		mk := func(label string) []int {
-			r := rapid.IntRange(0, len(res)).Draw(t, label+"rank")
-			s := cloneInts(res[len(res)-r:])
-			for i := range s {
-				if rapid.IntRange(0, 2).Draw(t, label+"one") == 0 {
-					s[i] = 1
-				}
-			}
-			return s
+		r := rapid.SampledFrom([]int{0, 1, 1, 2, 2, 2, 3, 3, 3, 4, 4, 5}).Draw(t, "rrank")
+		if r > maxRank {
+			r = maxRank
 		}
-		a, b := mk("a"), mk("b")
+		a, b := make([]int, r), make([]int, r)
+		n := 1
+		for i := 0; i < r; i++ {
+			e := genExtent(maxExt).Draw(t, "e")
+			if n*e > maxElems {
+				e = 1
+			}
+			n *= e
+			a[i], b[i] = e, e
+			switch rapid.IntRange(0, 6).Draw(t, "mode") {
+			case 3, 4:
+				a[i] = 1
+			case 5, 6:
+				b[i] = 1
+			}
+		}
+		drop := func(s []int, label string) []int {
+			k := rapid.SampledFrom([]int{0, 0, 0, 0, 1, 1, 2, 9}).Draw(t, label)
+			if k > len(s) {
+				k = len(s)
+			}
+			return s[k:]
+		}
+		if rapid.Bool().Draw(t, "dropWhich") {
+			a = drop(a, "dropA")
+		} else {
+			b = drop(b, "dropB")
+		}
 		out, ok := bcastShape(a, b)
 		if !ok {
 			panic("genBroadcastPair: constructed incompatible pair")
